@@ -159,3 +159,28 @@ Definition print_opts (c : cfg) : opts :=
      o_rate_mods := map (kv ":") (c_rate_mods c);
      o_ode_mods := [join ";"%char (flat_map print_om (c_ode_mods c))];
      o_solver := c_solver c; o_device := c_device c; o_method := c_method c |}.
+
+(** ** solver / device / method selection of `naunet init`:
+      choices = allowed_method.get(solver).get(device)
+      if method is None and choices: method = choice(..., choices, 0)      (the first choice when not interactive)
+      elif method not in choices: raise ValueError
+    An unknown solver or device makes the look-up fail (AttributeError / TypeError): refused as well. *)
+Inductive selection := SelRefused | SelKept (m : string) | SelDefault (m : string).
+
+Definition alookup {A} (k : string) (l : list (string * A)) : option A :=
+  match find (fun p => String.eqb (fst p) k) l with Some p => Some (snd p) | None => None end.
+
+Definition select_method (tbl : list (string * list (string * list string))) (solver device : string) (method : option string) : selection :=
+  match alookup solver tbl with
+  | None => SelRefused
+  | Some devs =>
+      match alookup device devs with
+      | None => SelRefused
+      | Some choices =>
+          match method, choices with
+          | None, c :: _ => SelDefault c
+          | None, [] => SelRefused
+          | Some m, _ => if existsb (String.eqb m) choices then SelKept m else SelRefused
+          end
+      end
+  end.
